@@ -37,7 +37,17 @@ Bigs == { [id |-> "big:int64:max", cls |-> "big", s |-> "9223372036854775807", p
           [id |-> "big:float32:33554448", cls |-> "big", s |-> "33554448", pos |-> TRUE],
           [id |-> "big:float32:-67108872", cls |-> "big", s |-> "-67108872", pos |-> FALSE],
           [id |-> "big:float64:9007199254740993", cls |-> "big", s |-> "9007199254740992", pos |-> TRUE],
-          [id |-> "big:float64:123456789012", cls |-> "big", s |-> "123456789012", pos |-> TRUE] }
+          [id |-> "big:float64:123456789012", cls |-> "big", s |-> "123456789012", pos |-> TRUE],
+          (* an integer no float64 holds reads exactly, whichever integer type carries it: a defined type, a uintptr *)
+          [id |-> "big:serial:max", cls |-> "big", s |-> "9223372036854775807", pos |-> TRUE],
+          [id |-> "big:serial:min", cls |-> "big", s |-> "-9223372036854775808", pos |-> FALSE],
+          [id |-> "big:uintptr:max", cls |-> "big", s |-> "18446744073709551615", pos |-> TRUE],
+          [id |-> "big:serial:9007199254740993", cls |-> "big", s |-> "9007199254740993", pos |-> TRUE],
+          [id |-> "big:serial:-9007199254740993", cls |-> "big", s |-> "-9007199254740993", pos |-> FALSE],
+          [id |-> "big:uintptr:9007199254740993", cls |-> "big", s |-> "9007199254740993", pos |-> TRUE],
+          [id |-> "big:int64:9007199254740993", cls |-> "big", s |-> "9007199254740993", pos |-> TRUE],
+          [id |-> "big:uint64:9007199254740993", cls |-> "big", s |-> "9007199254740993", pos |-> TRUE],
+          [id |-> "big:int:9007199254740995", cls |-> "big", s |-> "9007199254740995", pos |-> TRUE] }
 StrTexts == {"", "abc", "1", "1.5", "-2", "007", "0.5", "0", "a%20b", "-0.25", "12abc", ".5", "5.", "+3", "-", ".", "1.5.2",
              (* decimal means decimal: a leading zero is not octal, letters and digit separators make the string non-numeric *)
              "010", "0100", "012", "08", "0b11", "0o17", "1_000", "-010", "0777.5"}
